@@ -16,7 +16,7 @@ from .. import build, tlc, run
 from . import _idbq as Q
 
 CFG = {"quick": os.environ.get("VERIF_C12_CFG", "IdbFile_quick"), "thorough": "IdbFile_thorough"}
-MAXPOS = 4          # vectors of the generated databases have at most 2 entries
+MAXPOS = 3          # vectors of the generated databases have at most 2 entries
 BASE_DEF = {"first": 1, "next": 4, "lib": [98], "mod": []}
 
 
@@ -36,7 +36,9 @@ def case_for(cid, r, fpath, base_path):
         setup.append(["mod", {"id": r["defid"], "dbfile": fpath, "first": 1 if num else 0, "next": 1 + num if num else 0}])
     h = r["hdrs"]
     queries = [["c", "interrogate_number_of_types"], ["c", "interrogate_error_flag"], ["dump", r["gnext"] + 1, r["maxpos"]]]
-    if kind in ("idmatch", "modok"):
+    if r["err"] and (r["cut"] == -1 or r["content"]) and kind != "idmismatch":
+        queries.append(["c", "interrogate_number_of_functions"])      # nothing to re-serialise
+    elif kind in ("idmatch", "modok"):
         queries.append(["rewrite_def", 0])
     else:
         queries.append(["rewrite", h["id"], Q.b2s(h["lib"]), Q.b2s(h["hash"]), Q.b2s(h["mod"])])
